@@ -10,6 +10,7 @@ import (
 	"encoding/json"
 	"fmt"
 	"sort"
+	"strings"
 
 	abci "github.com/tendermint/tendermint/abci/types"
 
@@ -28,7 +29,7 @@ type c17Mon struct {
 func attachC17(m *Mon, every int) {
 	c := &c17Mon{m: m, every: every}
 	m.extra = append(m.extra, func(sc *StepCtx) {
-		if sc.Idx >= 0 && (sc.Idx+1)%c.every == 0 {
+		if sc.Idx >= 0 && (sc.Idx+1)%everyFor(sc, c.every, 2) == 0 {
 			c.sample(sc)
 		}
 	})
@@ -558,4 +559,12 @@ func (c *c17Mon) sample(sc *StepCtx) {
 		}
 	}
 	_ = codec.MarshalJSONIndent
+}
+
+// everyFor: the fixed scripts are short and are sampled densely.
+func everyFor(sc *StepCtx, every, dense int) int {
+	if sc.run != nil && strings.HasPrefix(sc.run.hist.Name, "script-") {
+		return dense
+	}
+	return every
 }
